@@ -133,7 +133,7 @@ def run(tier):
             continue
         for k in tot:
             tot[k] += sm.get(k, 0)
-        if sm["overflow"]:
+        if sm.get("overflow") or sm.get("aborted"):
             ck.exhaustive = False
             ck.notes.append("choice-vector cap hit in " + job["tag"])
         for v in res["viols"]:
